@@ -84,16 +84,21 @@ theorem normParts_glue (puny : Str → Str) (o : Opts) (hp : Bool) (p : Parsed) 
 whose label list only whole labels of the irrelevant set (`www`, `www`+digit, `mobile`, `m`,
 and `amp` when `amp = true`) were removed (`DelSub`), and from which at most a leading `amp-`
 was then cut (only when `amp = true`; what follows is IDNA-decoded, since the cut can reveal
-an `xn--` label) — nothing else. -/
+an `xn--` label, and may again lose whole irrelevant labels, since the cut can reveal those too:
+`amp-www.a.com`) — nothing else. -/
 def HostDel (puny : Str → Str) (amp : Bool) (h h' : Str) : Prop :=
   ∃ mid, DelSub (fun l => isIrrelevantLabel amp l = true)
       (splitOn (lower (decodePunycodeHostname puny h)) '.') (splitOn mid '.') ∧
-    (h' = mid ∨ (amp = true ∧ ∃ rest, mid = ampDash ++ rest ∧ h' = decodePunycodeHostname puny rest))
+    (h' = mid ∨ (amp = true ∧ ∃ rest, mid = ampDash ++ rest ∧
+      DelSub (fun l => isIrrelevantLabel true l = true)
+        (splitOn (decodePunycodeHostname puny rest) '.') (splitOn h' '.')))
 
-theorem ampPrefix_cases (puny : Str → Str) (amp : Bool) (mid : Str) :
-    (if amp then stripAmpPrefix puny mid else mid) = mid ∨
+theorem ampPrefix_cases (puny : Str → Str) (amp again : Bool) (mid : Str) :
+    (if amp then stripAmpPrefix puny again mid else mid) = mid ∨
     (amp = true ∧ ∃ rest, mid = ampDash ++ rest ∧
-      (if amp then stripAmpPrefix puny mid else mid) = decodePunycodeHostname puny rest) := by
+      (if amp then stripAmpPrefix puny again mid else mid) =
+        (if again then subdomainSub true (decodePunycodeHostname puny rest)
+         else decodePunycodeHostname puny rest)) := by
   cases amp with
   | false => left; rfl
   | true =>
@@ -107,10 +112,26 @@ theorem ampPrefix_cases (puny : Str → Str) (amp : Bool) (mid : Str) :
       have := startsWith_eq_append hs
       simpa [ampDash] using this
 
+/-- what the `amp-` step leaves is what it was given, or what followed `amp-`, decoded, minus
+whole irrelevant labels -/
+theorem ampPrefix_del (puny : Str → Str) (amp again : Bool) (mid : Str) :
+    (if amp then stripAmpPrefix puny again mid else mid) = mid ∨
+    (amp = true ∧ ∃ rest, mid = ampDash ++ rest ∧
+      DelSub (fun l => isIrrelevantLabel true l = true)
+        (splitOn (decodePunycodeHostname puny rest) '.')
+        (splitOn (if amp then stripAmpPrefix puny again mid else mid) '.')) := by
+  rcases ampPrefix_cases puny amp again mid with h | ⟨ha, rest, hm, h⟩
+  · exact Or.inl h
+  · refine Or.inr ⟨ha, rest, hm, ?_⟩
+    rw [h]
+    cases again with
+    | true => exact subdomainSub_labels _ _
+    | false => exact DelSub.refl _
+
 theorem normHost_del (puny : Str → Str) (o : Opts) (h : Str) (hne : h ≠ []) :
     HostDel puny o.normalizeAmp h (normHost puny o h) ∧
     (o.stripIrrelevantSubdomains = false →
-      normHost puny o h = (if o.normalizeAmp then stripAmpPrefix puny (lower (decodePunycodeHostname puny h))
+      normHost puny o h = (if o.normalizeAmp then stripAmpPrefix puny false (lower (decodePunycodeHostname puny h))
         else lower (decodePunycodeHostname puny h))) := by
   have he : h.isEmpty = false := by cases h <;> simp_all
   unfold normHost
@@ -120,11 +141,11 @@ theorem normHost_del (puny : Str → Str) (o : Opts) (h : Str) (hne : h ≠ []) 
     | true =>
       simp only [if_true]
       refine ⟨subdomainSub o.normalizeAmp (lower (decodePunycodeHostname puny h)), subdomainSub_labels _ _, ?_⟩
-      exact ampPrefix_cases puny o.normalizeAmp _
+      exact ampPrefix_del puny o.normalizeAmp _ _
     | false =>
       simp only [Bool.false_eq_true, if_false]
       refine ⟨lower (decodePunycodeHostname puny h), DelSub.refl _, ?_⟩
-      exact ampPrefix_cases puny o.normalizeAmp _
+      exact ampPrefix_del puny o.normalizeAmp _ _
   · intro hs
     simp [hs]
 
@@ -160,6 +181,14 @@ example : isIrrelevantLabel true "forum-m".toList = false ∧ isIrrelevantLabel 
 /-- non-vacuity: `www.forum-m.M.example.com` loses `www` and `M`, keeps `forum-m` -/
 example : normHost id {} "WWW.forum-m.M.Example.com".toList = "forum-m.example.com".toList := by
   decide +kernel
+
+/-- non-vacuity of the `amp-` clause: what the cut reveals is decoded and loses its irrelevant
+labels too (`strip_irrelevant_subdomains` off: the cut alone) -/
+example : normHost id {} "amp-www.M.example.com".toList = "example.com".toList ∧
+    normHost id { stripIrrelevantSubdomains := false } "amp-www.M.example.com".toList =
+      "www.m.example.com".toList ∧
+    normHost id { normalizeAmp := false } "amp-www.M.example.com".toList = "amp-www.example.com".toList := by
+  decide
 
 /-- the deletion relation really excludes over-deletion: `forum-example.com` is not obtained
 from `forum-m.example.com` by removing whole irrelevant labels -/
@@ -531,13 +560,13 @@ theorem option_strip_protocol_off (puny : Str → Str) (o : Opts) (hp : Bool) (p
   cases hp <;> simp [normComps]
 
 /-- `strip_irrelevant_subdomains` off: no label is removed — the host is the input's,
-lower-cased and IDNA-decoded (minus a leading `amp-` when `normalize_amp`); nothing else
-changes -/
+lower-cased and IDNA-decoded (minus a leading `amp-` when `normalize_amp`: `stripAmpPrefix … false`
+is the cut + decoding alone, no second label pass); nothing else changes -/
 theorem option_strip_irrelevant_subdomains_off (puny : Str → Str) (o : Opts) (hp : Bool) (p : Parsed) :
     let A := normComps puny { o with stripIrrelevantSubdomains := false } hp p
     let B := normComps puny { o with stripIrrelevantSubdomains := true } hp p
     (∀ h, p.hostname = some h → h ≠ [] →
-      A.host = some (if o.normalizeAmp then stripAmpPrefix puny (lower (decodePunycodeHostname puny h))
+      A.host = some (if o.normalizeAmp then stripAmpPrefix puny false (lower (decodePunycodeHostname puny h))
         else lower (decodePunycodeHostname puny h))) ∧
     A.scheme = B.scheme ∧ A.user = B.user ∧ A.pass = B.pass ∧ A.port = B.port ∧ A.path = B.path ∧
     A.qsl = B.qsl ∧ A.fragment = B.fragment := by
